@@ -95,6 +95,25 @@ CHECKS.update({
     },
 })
 
+C04_TEXT = ("Layered bounded verification (composition for n>=5 is a stated argument, not machine-checked). E2E (public API, real walk/decoder/dispatch/tables): for symbolic f the result is <= g.f for a SYMBOLIC group element g, is a member of the orbit (concrete enumeration of the group as existential witness, independent of the certificate), canonization is idempotent and class-invariant, and the returned (perm, mask) maps f to the result also when f is already canonical: P and N n=0..4, NPN n=0..3 (largest sizes in the quick tier with operations::cmp replaced by an index-loop stand-in via Kani stubbing + equivalence lemma; real kernels in thorough). "
+            "L1 walk lemmas (kernel level, n in {2,5,6,7}, 8 thorough): {p,n,npn}_canonization_ind over ARBITRARY short sequences with symbolic contents leave table/best/index as specified and *_res decodes the index into a certificate that maps the input to best (pointwise on a symbolic assignment), including 'no candidate improves'. "
+            "L2 sequence lemma (z3 4.8.12 + z3 5.1.0 + cvc5, must agree): for the sequences the library really uses (SWAPS/FLIPS tables n<=6, generators n=7,8, dumped natively from the real file) the solver computes the prefix products and shows no permutation / polarity is missed, the cycle is closed, every entry in range (n<=6 quick, n<=8 thorough). n>=9 and the end-to-end dispatch for n>=5 (NPN n>=4) are outside the claim.")
+
+CHECKS.update({
+    "C04": {
+        "text": C04_TEXT,
+        "design_ref": "DESIGN.md section 5 / C04-C05",
+        "technique": "Kani/CBMC bounded model checking (end-to-end small n + inductive walk lemmas) and SMT (z3, cvc5) for the sequence-completeness lemma",
+        "note": "Composition of E2E + L1 + L2 + kernel exactness (C01, C03, C08) for n = 5..8 is by the uniformity of the loop body and is NOT machine-checked. ",
+    },
+    "C05": {
+        "text": C04_TEXT,
+        "design_ref": "DESIGN.md section 5 / C04-C05",
+        "technique": "Kani/CBMC bounded model checking of the certificate (end-to-end small n; pointwise decoder lemma for arbitrary short walks up to n=8) and SMT (z3, cvc5) for closedness of the sequences",
+        "note": "Composition of E2E + L1 + L2 for n = 5..8 is a stated argument, not machine-checked. ",
+    },
+})
+
 NOT_APPLICABLE = {
     "C07": "bdd_complexity is Vec push/retain/sort/dedup under symbolic conditions: a single symbolic function at n=2 does not finish in 900 s under Kani/CBMC (n<=1 is vacuous); no bound at which the property says anything is reachable by the solver",
     "C14": "every Sop operation goes through from_cubes ((0..32).filter over a symbolic mask) or conditional Vec::push and ends in simplify (retain/sort/dedup): '|' and '&' on 1x1 cubes at n=2 exceed 900 s under Kani/CBMC; cube-level facts it relies on are decided in C12",
